@@ -214,11 +214,16 @@ def main(tier):
             k += 1
             out = os.path.join(root, "workp%d" % k, "exposed")
             args = ["--module", PKG2 + ".gen", "--emit", emit, "--output-directory", out] + (["--dry-run"] if dry else []) + (["--recursive"] if recursive else [])
+            # half of these runs start from a working directory three levels down a sibling tree (paths made relative to the
+            # working directory then need `..` components)
+            deep = os.path.join(root, "w1", "w2", "w3")
+            os.makedirs(deep, exist_ok=True)
+            cwd_ = deep if k % 2 else root
             before = snapshot(root)
-            rc, tail = run_exmod(py, args, root, extra_path=plain_root)
+            rc, tail = run_exmod(py, args, cwd_, extra_path=plain_root)
             d = diff(before, snapshot(root))
             res["runs"] += 1
-            case = {"emit": emit, "recursive": recursive, "dry_run": dry, "preexisting_out": False, "lists": "", "rc": rc, "placement": "plain directory on PYTHONPATH"}
+            case = {"emit": emit, "recursive": recursive, "dry_run": dry, "preexisting_out": False, "lists": "", "rc": rc, "placement": "plain directory on PYTHONPATH" + (", deep working directory" if cwd_ is deep else "")}
             if rc != 0:
                 res["crashes"] += 1
             if dry and d:
